@@ -7,19 +7,22 @@ From LLGoV Require Import C13.Model C13.Proofs.
    reuse cached archives yields exactly the artifacts of a clean build of the same sources.
    Premises (all explicit, none is an axiom): sha256 of the manifest has no collisions
    ([digest] injective), key comparison is equality, the compiler depends only on the
-   [relevant] kinds of a package and of the packages it imports.
+   [relevant] kinds of a package and of the mutable packages it imports and on (id, version)
+   of the immutable ones (module cache), and moduleVersion ([ver_of]) yields a version exactly
+   for the immutable modules - a module replaced by a local directory is NOT one of them.
    The premise [covers fp_kinds (KDeps :: relevant)] for the real tree is a generated
    obligation: check.py extracts fp_kinds from collect.go/fingerprint.go on every run. *)
 Theorem cache_sound :
   forall (key artifact : Type) (key_eqb : key -> key -> bool)
-         (digest : list value -> list key -> key) (compile : tree -> artifact)
-         (fp_kinds relevant : list kind),
+         (digest : list value -> list (dentry key) -> key) (compile : tree -> artifact)
+         (fp_kinds relevant : list kind) (ver_of : modst -> option value),
     (forall a b, key_eqb a b = true <-> a = b) ->
     (forall v1 k1 v2 k2, digest v1 k1 = digest v2 k2 -> v1 = v2 /\ k1 = k2) ->
     (forall t u, rel_eq relevant t u -> compile t = compile u) ->
     covers fp_kinds (KDeps :: relevant) = true ->
+    (forall s, ver_of s = if immutable s then Some (mver s) else None) ->
     forall (h : list step) (m : module),
-      run_cached key artifact key_eqb digest compile fp_kinds m [] h
+      run_cached key artifact key_eqb digest compile fp_kinds ver_of m [] h
       = run_clean artifact compile m h.
 Proof. intros. eapply cache_sound_lemma; eassumption. Qed.
 Print Assumptions cache_sound.
@@ -27,15 +30,16 @@ Print Assumptions cache_sound.
 (* the same, started from any cache whose entries were produced by earlier builds *)
 Theorem cache_sound_any_cache :
   forall (key artifact : Type) (key_eqb : key -> key -> bool)
-         (digest : list value -> list key -> key) (compile : tree -> artifact)
-         (fp_kinds relevant : list kind),
+         (digest : list value -> list (dentry key) -> key) (compile : tree -> artifact)
+         (fp_kinds relevant : list kind) (ver_of : modst -> option value),
     (forall a b, key_eqb a b = true <-> a = b) ->
     (forall v1 k1 v2 k2, digest v1 k1 = digest v2 k2 -> v1 = v2 /\ k1 = k2) ->
     (forall t u, rel_eq relevant t u -> compile t = compile u) ->
     covers fp_kinds (KDeps :: relevant) = true ->
+    (forall s, ver_of s = if immutable s then Some (mver s) else None) ->
     forall (h : list step) (m : module) (c : cache key artifact),
-      cache_ok key artifact digest compile fp_kinds c ->
-      run_cached key artifact key_eqb digest compile fp_kinds m c h
+      cache_ok key artifact digest compile fp_kinds ver_of c ->
+      run_cached key artifact key_eqb digest compile fp_kinds ver_of m c h
       = run_clean artifact compile m h.
 Proof. intros. eapply cache_sound_gen; eassumption. Qed.
 Print Assumptions cache_sound_any_cache.
@@ -45,13 +49,13 @@ Print Assumptions cache_sound_any_cache.
    cache-warm build differs from the clean build. *)
 Theorem uncovered_kind_stale :
   forall (key artifact : Type) (key_eqb : key -> key -> bool)
-         (digest : list value -> list key -> key) (compile : tree -> artifact)
-         (fp_kinds : list kind) (k : kind) (i : inputs) (v : value),
+         (digest : list value -> list (dentry key) -> key) (compile : tree -> artifact)
+         (fp_kinds : list kind) (ver_of : modst -> option value) (k : kind) (i : inputs) (v : value),
     (forall a b, key_eqb a b = true <-> a = b) ->
     ~ In k fp_kinds ->
-    compile (Node (upd i k v) []) <> compile (Node i []) ->
+    compile (Node (upd i k v) MMain []) <> compile (Node i MMain []) ->
     exists (m : module) (h : list step),
-      run_cached key artifact key_eqb digest compile fp_kinds m [] h
+      run_cached key artifact key_eqb digest compile fp_kinds ver_of m [] h
       <> run_clean artifact compile m h.
 Proof.
   intros. exists (one_pkg i), [Build; EditPkg 0 k v; Build].
@@ -61,20 +65,85 @@ Print Assumptions uncovered_kind_stale.
 
 (* Fingerprints are transitive over the import graph: if two versions of a package have
    the same fingerprint, then so have the versions of every package at the same position
-   below them - contrapositive: a changed fingerprint anywhere in the transitive imports
-   changes the fingerprint of the importer. *)
+   below them that is reached through dependencies recorded by fingerprint - contrapositive:
+   a changed fingerprint anywhere in the mutable transitive imports changes the fingerprint
+   of the importer. *)
 Theorem dep_change_propagates :
-  forall (key : Type) (digest : list value -> list key -> key) (fp_kinds : list kind),
+  forall (key : Type) (digest : list value -> list (dentry key) -> key) (fp_kinds : list kind)
+         (ver_of : modst -> option value),
     (forall v1 k1 v2 k2, digest v1 k1 = digest v2 k2 -> v1 = v2 /\ k1 = k2) ->
     memk KDeps fp_kinds = true ->
-    forall t t' u u', sub_pair t t' u u' ->
-      fp key digest fp_kinds u <> fp key digest fp_kinds u' ->
-      fp key digest fp_kinds t <> fp key digest fp_kinds t'.
+    forall t t' u u', sub_pair ver_of t t' u u' ->
+      fp key digest fp_kinds ver_of u <> fp key digest fp_kinds ver_of u' ->
+      fp key digest fp_kinds ver_of t <> fp key digest fp_kinds ver_of t'.
 Proof.
-  intros key digest fpk Hinj HD t t' u u' S Hne E. apply Hne.
+  intros key digest fpk ver_of Hinj HD t t' u u' S Hne E. apply Hne.
   eapply dep_fp_lemma; eassumption.
 Qed.
 Print Assumptions dep_change_propagates.
+
+(* Any edit of a file of a mutable dependency changes the manifest of every transitive
+   importer: with the moduleVersion of the tree (module_version false: main module,
+   workspace and DIRECTORY-replaced modules have no version), if u' is u with one input of a
+   kind the manifest contains changed, and u sits below t through mutable packages only,
+   then the fingerprint of t changes - the importer is a cache miss. *)
+Theorem mutable_dep_edit_changes_importers :
+  forall (key : Type) (digest : list value -> list (dentry key) -> key) (fp_kinds : list kind),
+    (forall v1 k1 v2 k2, digest v1 k1 = digest v2 k2 -> v1 = v2 /\ k1 = k2) ->
+    memk KDeps fp_kinds = true ->
+    forall t t' o s ds k v,
+      sub_pair (module_version false) t t' (Node o s ds) (Node (upd o k v) s ds) ->
+      In k fp_kinds -> v <> o k ->
+      fp key digest fp_kinds (module_version false) t <> fp key digest fp_kinds (module_version false) t'.
+Proof.
+  intros key digest fpk Hinj HD t t' o s ds k v S Hk Hv.
+  eapply dep_change_propagates; try eassumption.
+  intros E. eapply edit_changes_fp; try eassumption. symmetry. exact E.
+Qed.
+Print Assumptions mutable_dep_edit_changes_importers.
+
+(* the positions reached through main-module / directory-replaced packages qualify *)
+Theorem mutable_means_fingerprinted :
+  forall s, immutable s = false <-> module_version false s = None.
+Proof. intros s; destruct s; cbn; split; intros H; try reflexivity; discriminate H. Qed.
+Print Assumptions mutable_means_fingerprinted.
+
+(* Converse (refutation schema for the policy): a dependency that moduleVersion records by
+   version only can be edited without its importer's fingerprint changing - so a policy that
+   gives a version to an editable (directory-replaced) module serves its importers stale. *)
+Theorem version_only_dep_edit_invisible :
+  forall (key : Type) (digest : list value -> list (dentry key) -> key) (fp_kinds : list kind)
+         (ver_of : modst -> option value) o s o1 s1 x1 k v w rest,
+    ver_of s1 = Some w -> k <> KPkgId ->
+    fp key digest fp_kinds ver_of (Node o s (Node (upd o1 k v) s1 x1 :: rest))
+    = fp key digest fp_kinds ver_of (Node o s (Node o1 s1 x1 :: rest)).
+Proof.
+  intros. eapply versioned_dep_edit_invisible with (d1 := Node o1 s1 x1); try eassumption. reflexivity.
+Qed.
+Print Assumptions version_only_dep_edit_invisible.
+
+(* on the two-module scenario of the harness (app: main -> app/mid; lib => ../lib): editing a
+   Go file of lib re-fingerprints app/mid and nothing is stale; under the simplified
+   moduleVersion (version for a directory replace) app/mid keeps its fingerprint and the
+   cache-warm build is stale *)
+Theorem dir_replace_fresh :
+  refingerprints false (tree_manifest true) e2e_repl_module (EditPkg 2 KGoFiles 1%N) 1 = true
+  /\ stale_pol false (tree_manifest true) (e2e_repl_module, [Build; EditPkg 2 KGoFiles 1%N; Build]) = false.
+Proof. split; reflexivity. Qed.
+Print Assumptions dir_replace_fresh.
+
+Theorem dir_replace_by_version_refuted :
+  refingerprints true (tree_manifest true) e2e_repl_module (EditPkg 2 KGoFiles 1%N) 1 = false
+  /\ stale_pol true (tree_manifest true) (e2e_repl_module, [Build; EditPkg 2 KGoFiles 1%N; Build]) = true.
+Proof. split; reflexivity. Qed.
+Print Assumptions dir_replace_by_version_refuted.
+
+(* a versioned replace is identified by the version it is replaced with: switching it
+   re-fingerprints the importer *)
+Example versioned_replace_switch :
+  ktree_eqb (cfp false (tree_manifest true) (e2e_replver_module 2%N) 1)
+            (cfp false (tree_manifest true) (e2e_replver_module 3%N) 1) = false.
+Proof. reflexivity. Qed.
 
 (* [covers] fails exactly when [uncovered] names a kind: the generated obligation reports
    the missing kinds *)
@@ -100,7 +169,7 @@ Print Assumptions concrete_cache_sound.
 (* ... and every relevant kind missing from the manifest has a stale history. *)
 Theorem concrete_uncovered_kind_stale :
   forall fpk k, In k relevant_kinds -> ~ In k fpk ->
-    exists m h, crun_cached fpk m h <> crun_clean m h.
+    exists m h, crun_cached false fpk m h <> crun_clean m h.
 Proof.
   intros fpk k Hr Hn. eexists; eexists. now apply (concrete_uncovered_stale fpk k).
 Qed.
@@ -131,15 +200,17 @@ Print Assumptions fixed_manifest_never_stale.
 (* and for every digest / compiler satisfying the premises of cache_sound *)
 Theorem fixed_manifest_cache_sound :
   forall (key artifact : Type) (key_eqb : key -> key -> bool)
-         (digest : list value -> list key -> key) (compile : tree -> artifact),
+         (digest : list value -> list (dentry key) -> key) (compile : tree -> artifact),
     (forall a b, key_eqb a b = true <-> a = b) ->
     (forall v1 k1 v2 k2, digest v1 k1 = digest v2 k2 -> v1 = v2 /\ k1 = k2) ->
     (forall t u, rel_eq relevant_kinds t u -> compile t = compile u) ->
     forall (h : list step) (m : module),
-      run_cached key artifact key_eqb digest compile (tree_manifest true) m [] h
+      run_cached key artifact key_eqb digest compile (tree_manifest true) (module_version false) m [] h
       = run_clean artifact compile m h.
 Proof.
-  intros. eapply cache_sound_lemma; try eassumption. exact fixed_manifest_covers.
+  intros. eapply cache_sound_lemma; try eassumption.
+  - exact fixed_manifest_covers.
+  - exact module_version_faithful.
 Qed.
 Print Assumptions fixed_manifest_cache_sound.
 
@@ -181,6 +252,6 @@ Proof. reflexivity. Qed.
 Example transitive_fp_changes :
   let ts := trees e2e_module in
   let ts' := trees (edit_pkg e2e_module 3 KGoFiles 1%N) in
-  ktree_eqb (fp ktree cdigest pinned_manifest (nth 1 ts leaf))
-            (fp ktree cdigest pinned_manifest (nth 1 ts' leaf)) = false.
+  ktree_eqb (fp ktree cdigest pinned_manifest (module_version false) (nth 1 ts leaf))
+            (fp ktree cdigest pinned_manifest (module_version false) (nth 1 ts' leaf)) = false.
 Proof. reflexivity. Qed.
